@@ -239,7 +239,11 @@ def issubdtype(arg1, arg2):
 
 def isscalar(x):
     if isinstance(x, (SymF64, SymI64, SymBool, SymDT, SymTD, SymStr)): return True
-    return isinstance(x, (int, float, complex, str, bytes, builtins.bool)) and not isinstance(x, ndarray)
+    if isinstance(x, ndarray): return False
+    # NumPy tests the exact type for text and bytes (an instance of a str subclass is not a scalar to it) and
+    # numbers.Number for the rest
+    import numbers
+    return type(x) in (int, float, complex, str, bytes, builtins.bool) or isinstance(x, numbers.Number)
 
 # ------------------------------------------------------------------ cells
 
